@@ -363,8 +363,8 @@ func runGatedCase(r *ev.Run, cfgIdx int, base vfsh.Config, i int) {
 	dNewParent, dNewName := parent, dName
 	if parked {
 		detach = []string{"rename-same-dir", "rename-same-dir", "rename-cross-dir", "RemoveAll", "CreateChildren-overwrite", "RemoveAllChildren", "none"}[rng.IntN(7)]
-		if kind != "readdir" && (detach == "RemoveAllChildren" || detach == "none") {
-			detach = "rename-same-dir"
+		if kind != "readdir" {
+			detach = []string{"rename-same-dir", "rename-cross-dir", "RemoveAll", "CreateChildren-overwrite", "none", "none"}[rng.IntN(6)]
 		}
 		dEnt := ents[pos]
 		switch detach {
@@ -428,7 +428,10 @@ func runGatedCase(r *ev.Run, cfgIdx int, base vfsh.Config, i int) {
 				r.Situation("readdir-backoff-entry-detached-meanwhile")
 			}
 		} else {
-			r.Situation("readdir-backoff-entry-kept")
+			r.Situation("backoff-entry-kept:" + kind)
+			if kind == "readdir" {
+				r.Situation("readdir-backoff-entry-kept")
+			}
 		}
 		// Other entries: remove one already reported, remove one not
 		// yet reported, add a new one.
